@@ -414,6 +414,10 @@ def labels_of_scenario(sc):
                     kept_head.add(a[0])
                     counts["kept-head-after-clear"] = counts.get("kept-head-after-clear", 0) + 1
                 last_reset = None
+            elif name == "prio.drop_promised":
+                # the promised stream of a PUSH_PROMISE dropped with its parent's queue loses its own queue on the spot (repair cc6ac6c)
+                if a[0] in live:
+                    add("LClear %d" % a[0])
             elif name == "prio.pop_data":
                 key, avail, win, sz, max_len, ln, eos = a[0], a[7], a[6], a[12], a[13], a[14], a[15]
                 eos_out = bool(eos) and ln >= sz
